@@ -95,6 +95,9 @@ type faultWriter struct {
 	k        int
 	accepted int
 	refused  bool
+	// fullCount: the first failing Write takes all its bytes and returns the error together with the full count
+	// (a destination that stored the data but could not make it durable); later writes are refused
+	fullCount bool
 }
 
 func (w *faultWriter) Write(p []byte) (int, error) {
@@ -102,6 +105,12 @@ func (w *faultWriter) Write(p []byte) (int, error) {
 	if len(p) <= room {
 		w.accepted += len(p)
 		return len(p), nil
+	}
+	if w.fullCount && !w.refused {
+		w.refused = true
+		w.accepted += len(p)
+		w.k = 0
+		return len(p), errFault
 	}
 	w.refused = true
 	if room < 0 {
@@ -281,7 +290,15 @@ func c15ReadJSON(c *fw.Case) {
 func c15Write(c *fw.Case, what string) {
 	rng := c.Rng
 	f := c15Frame(rng, rng.Intn(5) == 0)
-	root, err := model.MakeRootFrom(rng, f, 2, false)
+	steps := 2
+	if rng.Intn(12) == 0 {
+		// row counts at which a writer flushing every so many rows has just flushed when the last row is written
+		rows := []int{256, 512, 1024, 1024, 2048, 4096}[rng.Intn(6)]
+		f = model.GenFrame(rng, model.GenOpts{Rows: rows, MinCols: 1, MaxCols: 3, NoCR: true, UTF8: true, NoNull: true, SmallInts: true, LowCard: 4, Kinds: []model.Kind{model.KInt, model.KBool, model.KFloat}, Names: []string{"a", "b", "c"}})
+		steps = 0
+		c.Count("long_frames:"+what, 1)
+	}
+	root, err := model.MakeRootFrom(rng, f, steps, false)
 	if err != nil || len(root.Shadow.Cols) == 0 {
 		return
 	}
@@ -304,14 +321,40 @@ func c15Write(c *fw.Case, what string) {
 		d["output_bytes"] = total
 		return d
 	})
+	// fault positions: every offset for short outputs; for long ones the first and the last few thousand offsets in
+	// steps and a random sample. Every position is tried with a writer that refuses the bytes beyond it and with one
+	// that takes the failing write completely and reports the error together with the full count.
+	var positions []int
+	if total <= 3000 {
+		for k := 0; k <= total; k++ {
+			positions = append(positions, k)
+		}
+	} else {
+		for k := 0; k < 200; k += 3 {
+			positions = append(positions, k)
+		}
+		for k := total - 9000; k <= total; k += 1 + rng.Intn(40) {
+			if k >= 0 {
+				positions = append(positions, k)
+			}
+		}
+		positions = append(positions, total-2, total-1, total)
+		for i := 0; i < 60; i++ {
+			positions = append(positions, rng.Intn(total+1))
+		}
+	}
 	reported := 0
-	for k := 0; k <= total; k++ {
+	for pi, k := range positions {
 		c.Eval(1)
 		c.Count("fault_positions:"+what, 1)
 		if k > 0 && k < total {
 			c.Nontrivial(what, full.String(), k)
 		}
-		w := &faultWriter{k: k}
+		w := &faultWriter{k: k, fullCount: total <= 3000 && pi%2 == 1 || total > 3000 && pi%3 == 1}
+		if total <= 600 {
+			// short outputs: both kinds of writer at every position
+			w.fullCount = false
+		}
 		var werr error
 		pv, stack := fw.Guard(func() { werr = write(w) })
 		if pv != nil {
@@ -330,9 +373,25 @@ func c15Write(c *fw.Case, what string) {
 			continue
 		}
 		if reported < 3 {
-			c.Fail("swallowed:"+what, "%s returned nil although the writer accepted only %d of %d output bytes (refused a write: %v)", what, w.accepted, total, w.refused)
+			c.Fail("swallowed:"+what, "%s returned nil although the writer accepted only %d of %d output bytes (refused a write: %v, error returned with a full count: %v)", what, w.accepted, total, w.refused, w.fullCount)
 		}
 		reported++
+	}
+	if total <= 600 {
+		for k := 0; k <= total; k++ {
+			c.Eval(1)
+			c.Count("fault_positions_full_count:"+what, 1)
+			w := &faultWriter{k: k, fullCount: true}
+			var werr error
+			if pv, _ := fw.Guard(func() { werr = write(w) }); pv != nil {
+				c.Fail("panic:"+what, "%s panicked when a Write at offset %d of %d returned an error together with its full count: %v", what, k, total, pv)
+				return
+			}
+			if werr == nil && w.refused {
+				c.Fail("swallowed:"+what, "%s returned nil although a Write (at offset %d of %d) returned an error together with its full count", what, k, total)
+				return
+			}
+		}
 	}
 }
 
